@@ -110,6 +110,20 @@ func fnAcquires(p *Program, fn *ssa.Function, depth int, memo map[*ssa.Function]
 						out[c] = m
 					}
 				}
+			} else if useCGForLocks && ci.Common().StaticCallee() == nil {
+				// interface / func-value call: callees from the VTA call graph (module functions only)
+				if n := p.CallGraph().Nodes[fn]; n != nil {
+					for _, e := range n.Out {
+						if e.Site != in || !p.inModule(e.Callee.Func) {
+							continue
+						}
+						for c, m := range fnAcquires(p, originOf(e.Callee.Func), depth-1, memo, stack) {
+							if old, ok := out[c]; !ok || m == LockW || old == 0 {
+								out[c] = m
+							}
+						}
+					}
+				}
 			}
 			// closures passed as arguments run inside the callee (Once.Do, forEach, Each)
 			for _, a := range ci.Common().Args {
@@ -127,6 +141,10 @@ func fnAcquires(p *Program, fn *ssa.Function, depth int, memo map[*ssa.Function]
 	return out
 }
 
+// useCGForLocks: follow interface and func-value calls through the VTA call graph when
+// computing which locks a call may acquire (needed to see callbacks that re-enter).
+var useCGForLocks = false
+
 type orderEdge struct {
 	from, to string
 	fn       *ssa.Function
@@ -135,33 +153,89 @@ type orderEdge struct {
 }
 
 // lockOrderEdges: "class B acquired while class A is held", directly or in a
-// static callee called while A is held.
+// callee called while A is held.  Held locks are tracked as (term, class)
+// pairs; a closure invoked synchronously keeps the creator's terms, so a
+// callback that releases the creator's lock before doing more work (the
+// adapter's apply) does not produce edges for what it does unlocked.  Other
+// callees cannot name the caller's lock, so it counts as held throughout.
 func lockOrderEdges(p *Program) []orderEdge {
 	var out []orderEdge
-	memo := map[*ssa.Function]map[string]LockMode{}
-	for _, fn := range p.SrcFuncs() {
-		uses := false
+	type heldT struct {
+		term  string // "" when the lock cannot be named in the current function
+		class string
+	}
+	type memoKey struct {
+		fn   *ssa.Function
+		held string
+	}
+	visiting := map[memoKey]bool{}
+	done := map[memoKey]bool{}
+	var collect func(fn *ssa.Function, outer []heldT, depth int, via string, root *ssa.Function, rootInstr ssa.Instruction)
+	collect = func(fn *ssa.Function, outer []heldT, depth int, via string, root *ssa.Function, rootInstr ssa.Instruction) {
+		if fn.Blocks == nil || depth < 0 {
+			return
+		}
+		var hs []string
+		for _, h := range outer {
+			hs = append(hs, h.term+"/"+h.class)
+		}
+		sort.Strings(hs)
+		mk := memoKey{fn, strings.Join(hs, ",")}
+		if visiting[mk] || done[mk] {
+			return
+		}
+		visiting[mk] = true
+		defer func() { delete(visiting, mk); done[mk] = true }()
+		li := LocksInherit(fn)
+		ci := map[string]string{}
 		for _, b := range fn.Blocks {
 			for _, in := range b.Instrs {
-				if _, ok := lockOpOf(in); ok {
-					uses = true
+				if op, ok := lockOpOf(in); ok {
+					ci[op.lock] = lockClass(fn, in.(ssa.CallInstruction).Common().Args[0])
 				}
 			}
 		}
-		if !uses {
-			continue
-		}
-		ci := newClassInfo(fn)
 		for _, b := range fn.Blocks {
 			for _, in := range b.Instrs {
-				h := ci.held(in)
-				if len(h) == 0 {
+				// which locks are held here?
+				var held []heldT
+				for _, h := range outer {
+					if h.term != "" {
+						if _, tracked := li.Entry[h.term]; tracked {
+							if _, still := li.MayHeld(in)[h.term]; !still {
+								continue // released by this closure before this point
+							}
+						}
+					}
+					held = append(held, h)
+				}
+				for l := range li.Held(in) {
+					if cl, ok := ci[l]; ok {
+						dup := false
+						for _, h := range held {
+							if h.term == l {
+								dup = true
+							}
+						}
+						if !dup {
+							held = append(held, heldT{l, cl})
+						}
+					}
+				}
+				if len(held) == 0 {
 					continue
+				}
+				src, srcIn, v := root, rootInstr, via
+				if root == nil {
+					src, srcIn, v = fn, in, "direct"
 				}
 				if op, ok := lockOpOf(in); ok && op.acq && !op.defer_ {
 					c := lockClass(fn, in.(ssa.CallInstruction).Common().Args[0])
-					for a := range h {
-						out = append(out, orderEdge{a, c, fn, in, "direct"})
+					for _, h := range held {
+						if h.term == op.lock {
+							continue // exact re-acquisition is the must-held rule's business
+						}
+						out = append(out, orderEdge{h.class, c, src, srcIn, v})
 					}
 					continue
 				}
@@ -173,26 +247,86 @@ func lockOrderEdges(p *Program) []orderEdge {
 					continue
 				}
 				if _, isDefer := in.(*ssa.Defer); isDefer {
-					continue
-				}
-				var callees []*ssa.Function
-				if sc := call.Common().StaticCallee(); sc != nil && p.inModule(sc) {
-					callees = append(callees, originOf(sc))
-				}
-				for _, a := range call.Common().Args {
-					if mc, ok := a.(*ssa.MakeClosure); ok {
-						callees = append(callees, mc.Fn.(*ssa.Function))
+					// a deferred call runs at function exit: the CALLER's locks are still held then;
+					// this function's own locks may or may not be (LIFO with its deferred unlocks) — leave those out
+					var onlyOuter []heldT
+					for _, h := range held {
+						for _, o := range outer {
+							if o == h {
+								onlyOuter = append(onlyOuter, h)
+							}
+						}
+					}
+					held = onlyOuter
+					if len(held) == 0 {
+						continue
 					}
 				}
-				for _, cf := range callees {
-					for c := range fnAcquires(p, cf, 4, memo, map[*ssa.Function]bool{}) {
-						for a := range h {
-							out = append(out, orderEdge{a, c, fn, in, "via " + FuncName(cf)})
+				nroot, nrootIn := src, srcIn
+				// closures passed as arguments keep the terms
+				for _, a := range call.Common().Args {
+					if mc, ok := a.(*ssa.MakeClosure); ok {
+						collect(mc.Fn.(*ssa.Function), held, depth-1, "via "+FuncName(mc.Fn.(*ssa.Function)), nroot, nrootIn)
+					}
+				}
+				var callees []*ssa.Function
+				if sc := call.Common().StaticCallee(); sc != nil {
+					if p.inModule(sc) {
+						callees = append(callees, originOf(sc))
+					}
+				} else if useCGForLocks {
+					if n := p.CallGraph().Nodes[fn]; n != nil {
+						for _, e := range n.Out {
+							if e.Site == in && p.inModule(e.Callee.Func) {
+								callees = append(callees, originOf(e.Callee.Func))
+							}
 						}
+					}
+				}
+				// model of the transport callback registry (an atomic.Value hides the flow from VTA):
+				// Callbacks.OnClose / OnPacket invoke whatever was given to Callbacks.Set
+				if sc := call.Common().StaticCallee(); sc != nil {
+					switch FuncName(originOf(sc)) {
+					case "(*transport.Callbacks).OnClose":
+						callees = append(callees, transportCallbackTargets(p, 1)...)
+					case "(*transport.Callbacks).OnPacket":
+						callees = append(callees, transportCallbackTargets(p, 0)...)
+					}
+				}
+				if len(callees) == 0 {
+					continue
+				}
+				opaque := make([]heldT, 0, len(held))
+				for _, h := range held {
+					opaque = append(opaque, heldT{"", h.class})
+				}
+				for _, cf := range callees {
+					collect(cf, opaque, depth-1, "via "+FuncName(cf), nroot, nrootIn)
+				}
+			}
+		}
+	}
+	for _, fn := range p.SrcFuncs() {
+		if fn.Parent() != nil {
+			// closures are analysed from their creator when invoked synchronously; standalone otherwise
+			if li := LocksInherit(fn); len(li.Entry) > 0 {
+				continue
+			}
+		}
+		uses := false
+		for _, f := range WithAnons(fn) {
+			for _, b := range f.Blocks {
+				for _, in := range b.Instrs {
+					if _, ok := lockOpOf(in); ok {
+						uses = true
 					}
 				}
 			}
 		}
+		if !uses {
+			continue
+		}
+		collect(fn, nil, 7, "", nil, nil)
 	}
 	return out
 }
@@ -204,6 +338,7 @@ func lockOrderEdges(p *Program) []orderEdge {
 func cmdCensus(args []string) int {
 	o := parseOpts(args)
 	p := Load(o.repo, "", nil)
+	useCGForLocks = true
 	type stat struct {
 		total   int
 		under   map[string]int
@@ -276,4 +411,46 @@ func cmdCensus(args []string) int {
 		fmt.Printf("%s   [%s, %s at %s]\n", k, e.via, FuncName(e.fn), p.Pos(e.instr.Pos()))
 	}
 	return 0
+}
+
+var tcbMemo = map[int][]*ssa.Function{}
+var tcbProg *Program
+
+// transportCallbackTargets: the function values passed as argument idx (0 = onPacket,
+// 1 = onClose) to (*transport.Callbacks).Set anywhere in the module.
+func transportCallbackTargets(p *Program, idx int) []*ssa.Function {
+	if tcbProg != p {
+		tcbProg = p
+		tcbMemo = map[int][]*ssa.Function{}
+	}
+	if r, ok := tcbMemo[idx]; ok {
+		return r
+	}
+	var out []*ssa.Function
+	seen := map[*ssa.Function]bool{}
+	for _, fn := range p.SrcFuncs() {
+		for _, cs := range CallsTo(Calls(fn), `\(\*transport\.Callbacks\)\.Set`) {
+			a := cs.Arg(idx)
+			for {
+				if ct, ok := a.(*ssa.ChangeType); ok {
+					a = ct.X
+					continue
+				}
+				break
+			}
+			var f *ssa.Function
+			switch x := a.(type) {
+			case *ssa.MakeClosure:
+				f = x.Fn.(*ssa.Function)
+			case *ssa.Function:
+				f = x
+			}
+			if f != nil && !seen[f] {
+				seen[f] = true
+				out = append(out, f)
+			}
+		}
+	}
+	tcbMemo[idx] = out
+	return out
 }
